@@ -110,3 +110,35 @@ Section LV.
       destruct (Z.ltb_spec (k - H) (plen h)); [|lia]. exists (plen h - (k - H)). split; [reflexivity|lia].
   Qed.
 End LV.
+
+(* C05 for LV frames: the object parsed from ANY accepted buffer composes, and the composed bytes parse back to it *)
+Section LVCanonical.
+  Variable hv : Type.
+  Variable H : Z.
+  Variable hdr_check : bytes -> result hv.
+  Variable plen : bytes -> Z.
+  Variable mk_hdr : hv -> Z -> result bytes.
+  Variable okv : hv -> Prop.
+  Hypothesis H_pos : 0 < H.
+  Hypothesis plen_nonneg : forall h v, hdr_check h = Ok v -> 0 <= plen h.
+  Hypothesis mk_hdr_spec : forall v n h, okv v -> 0 <= n -> mk_hdr v n = Ok h -> zlen h = H /\ hdr_check h = Ok v /\ plen h = n.
+  (* compose is total on what the parser produces *)
+  Hypothesis mk_total : forall h v, zlen h = H -> hdr_check h = Ok v -> okv v /\ exists h', mk_hdr v (plen h) = Ok h'.
+
+  Lemma lv_canonical buf x n : lv_parse hv H hdr_check plen buf = Ok (x, n) ->
+    exists b2, lv_compose hv mk_hdr x = Ok b2 /\ lv_parse hv H hdr_check plen b2 = Ok (x, zlen b2).
+  Proof.
+    unfold lv_parse. destruct (Z.ltb_spec (zlen buf) H); [discriminate|].
+    set (h := firstn (Z.to_nat H) buf). destruct (hdr_check h) as [v|e] eqn:C; cbn [bind]; [|discriminate].
+    destruct (Z.ltb_spec (zlen buf - H) (plen h)); [discriminate|]. intros Q; apply Ok_inj in Q. inversion Q; subst x n; clear Q.
+    assert (Lh : zlen h = H) by (unfold h, zlen in *; rewrite firstn_length; lia).
+    destruct (mk_total h v Lh C) as [Hv [h' Hm]]. pose proof (plen_nonneg h v C) as Pn.
+    assert (Ls : zlen (slice buf H (H + plen h)) = plen h) by (rewrite slice_length; lia).
+    assert (Cx : lv_compose hv mk_hdr (v, slice buf H (H + plen h)) = Ok (h' ++ slice buf H (H + plen h))).
+    { unfold lv_compose. cbn [fst snd]. rewrite Ls, Hm. reflexivity. }
+    exists (h' ++ slice buf H (H + plen h)). split; [exact Cx|].
+    assert (R : lv_parse hv H hdr_check plen ((h' ++ slice buf H (H + plen h)) ++ []) = Ok ((v, slice buf H (H + plen h)), zlen (h' ++ slice buf H (H + plen h)))).
+    { eapply lv_roundtrip; eauto. }
+    rewrite app_nil_r in R. exact R.
+  Qed.
+End LVCanonical.
